@@ -34,14 +34,14 @@ CHECKS = {
     "C01": (
         "exploration",
         "runtime monitoring: differential against a definitional interpreter over the generator's own typed AST (reference model), arguments passed at run time as Data",
-        "Type-directed generated modules (Int/Bool/ByteArray/String, lists, tuples, pairs, Option, generic and recursive ADTs, records, lambdas, higher-order and recursive functions, when/if/let/expect, pipes, captures, backpassing, constants, Data casts, 45 builtins; one- and two-module layouts) are compiled by the real toolchain under verbose / silent / compact tracing and run on boundary-biased run-time Data arguments; the independent interpreter gives the expected Data value or abort. A disagreement is attributed to a recorded finding only if re-interpreting the source under exactly that deviation reproduces the compiled outcome; everything else is `unexplained`.",
+        "Type-directed generated modules (Int/Bool/ByteArray/String, lists, tuples, pairs, Option, generic and recursive ADTs, records, lambdas, higher-order and recursive functions, when/if/let/expect, pipes, captures, backpassing, constants, Data casts, 45 builtins; one- and two-module layouts) are compiled by the real toolchain under verbose / silent / compact tracing and run on boundary-biased run-time Data arguments; the independent interpreter gives the expected Data value or abort. A disagreement is attributed to a recorded finding only if re-interpreting the source under exactly that deviation reproduces the compiled outcome; everything else is `unexplained`. A second, interpreter-free stream checks monomorphisation invariance: one generic function instantiated at two representations in one program must agree, at each, with its hand-monomorphised copy.",
         "Trusted: oracles/aiken_ref (interp.py, model.py; calibrated on 90 hand-written corner cases). Grey zones excluded by construction: unused lets that can abort, order of sibling aborts, trace text. Interpreter fuel exhaustion is inconclusive.",
         "DESIGN.md §3 C01",
     ),
     "C02": (
         "translation_validation",
         "run-time translation validation: hook H1 snapshots of the program before/after every optimiser pass evaluated by the real machine on the same run-time arguments; hook H2 invariant on the inliner's trusted occurrence counts",
-        "For every optimiser run made while compiling G-aiken modules (default and known-shapes streams, three tracings) and the repository's harvested test modules, the program on entry, at the entry of every pass and on return is given its denotation (marker lambdas stripped, re-interned) and evaluated on the entry's run-time argument tuples; adjacent snapshots must agree, which names the offending pass. Every occurrence count the inliner trusts is re-counted independently (hook H2, ~150 000 per quick run). A panic in the optimiser on compiler output is a violation.",
+        "For every optimiser run made while compiling G-aiken modules (default and known-shapes streams, three tracings), targeted template modules (every curryable builtin x constant argument positions x 2-4 repetitions, closures over a failing binding) and the repository's harvested test modules, the program on entry, at the entry of every pass and on return is given its denotation (marker lambdas stripped, re-interned) and evaluated on the entry's run-time argument tuples; adjacent snapshots must agree, which names the offending pass. Every occurrence count the inliner trusts is re-counted independently (hook H2, ~150 000 per quick run). A panic in the optimiser on compiler output is a violation.",
         "Trusted: the real machine as common evaluator, the 15-line marker stripper, the shadowing-aware recount in uplc::verif. Programs needing the typed-list lowering of `afterwards` are compared from that stage on only.",
         "DESIGN.md §3 C02",
     ),
